@@ -1756,7 +1756,7 @@ def zero_known(store, d):
     return None
 
 
-def r5_bounded(facts, rep, names):
+def r5_bounded(facts, rep, names, tier="quick"):
     """The small-fraction form on values with 0..3 leading zero digits, limits 1..3 and exponent limits 1..3, whatever its code
     looks like (one loop with flags, several phases, helpers): Display::fmt is explored from its entry with a constant spec
     and a symbolic value; the digits come from the symbolic generator, the number of leading zeros followed is bounded.  On
@@ -1769,8 +1769,10 @@ def r5_bounded(facts, rep, names):
     ZMAX = 2
     n_small = 0
     n_paths = 0
-    for L_ in (1, 2, 3):
-        for X_ in (1, 2, 3):
+    role_memo, first_memo = {}, {}
+    combos = [(l_, x_) for l_ in ((1, 2, 3) if tier == "quick" else (1, 2, 3, 4)) for x_ in (1, 2, 3)]
+    for L_, X_ in combos:
+        if True:
             key = "bounded:limit=%d:exponent_limit=%d" % (L_, X_)
             dom = PrinterDomain(facts, no_inline=no_inline)
             it = core.Interp(facts, dom, budget=400000)
@@ -1791,9 +1793,12 @@ def r5_bounded(facts, rep, names):
                 whole_zero = rem_zero = None
                 for p_, b_ in pcl:
                     if isinstance(p_, T) and p_.op == "is_zero" and len(p_.args) == 1 and "x" in repr(p_.args[0]):
-                        if same(p_.args[0], X_DIV, GRID_X):
+                        ka_ = repr(p_.args[0])
+                        if ka_ not in role_memo:
+                            role_memo[ka_] = "whole" if same(p_.args[0], X_DIV, GRID_X) else ("rem" if same(p_.args[0], X_REM, GRID_X) else None)
+                        if role_memo[ka_] == "whole":
                             whole_zero = b_
-                        elif same(p_.args[0], X_REM, GRID_X):
+                        elif role_memo[ka_] == "rem":
                             rem_zero = b_
                 if not (whole_zero is True and rem_zero is False):
                     continue
@@ -1818,7 +1823,10 @@ def r5_bounded(facts, rep, names):
                 if zero_known(o.store, sig[0]) is not False and z > 0:
                     bad.append("a digit not known to be non-zero ends the leading zeros")
                     continue
-                if pulled and not same(pulled[0], T("idiv", T("*", X_REM, K(10)), X_ABS_D), GRID_X):
+                kp_ = repr(pulled[0]) if pulled else None
+                if pulled and kp_ not in first_memo:
+                    first_memo[kp_] = same(pulled[0], T("idiv", T("*", X_REM, K(10)), X_ABS_D), GRID_X)
+                if pulled and not first_memo[kp_]:
                     bad.append("the first digit pulled is %r, not the first digit of remainder / den" % (pulled[0],))
                     continue
                 negv = pc.get("is_negative(x)")
@@ -2405,7 +2413,7 @@ def run(fx, rep, tier):
             f_(facts, sub_, names)
         fn(facts, sub_, names)
         deepening(rep, sub_)
-    with_deepening(r5_small, r5_bounded)
+    with_deepening(r5_small, lambda f_, r_, n_: r5_bounded(f_, r_, n_, tier))
     with_deepening(r6_big)
     r7_agreement(facts, rep, names)
     if "rel" in fx:
@@ -2422,7 +2430,7 @@ def run(fx, rep, tier):
             deepening(sub, s4_)
             if rw:
                 n2["roles_whole"] = rw
-            for fns_ in ((r5_bounded, r5_small), (r6_big,)):
+            for fns_ in ((lambda f_, r_, n_: r5_bounded(f_, r_, n_, tier), r5_small), (r6_big,)):
                 s2_ = type(rep)(rep.prop, rep.tier)
                 for f_ in fns_:
                     f_(f2, s2_, n2)
